@@ -59,7 +59,11 @@ RULE = ('modes: fn = one direct call of the registered Python function (nested l
         'FALSE, 7 texts incl. "", " ", "1", "1.5", "TRUE", "#N/A", blank, nine errors, 3 dates, lists [1], [], ["a",[blank]], '
         '5 foreign objects: object, instance, dict, bytes, frozenset), ints -12..12, k/8 for k = -48..48, 300 (6000) x scale '
         'seeded numbers (ints in +-10^20, m/2^e with |m| < 2^40, e < 30, integer-valued floats m*2^e with |m| < 2^52, e < '
-        '200, odd/2^e with odd < 2^21, e in 1..59).  (e) model comparison only (oracle silent, never non-trivial): pred1 = '
+        '200, odd/2^e with odd < 2^21, e in 1..59); judged per group of ten answers (the '
+        'ten direct calls, the ten formulas): the five classifiers a logical, TRUE exactly on their kind; ISNONTEXT = not '
+        'ISTEXT; ISERR / ISNA split the errors; on a number ISEVEN a logical and ISODD a logical or 1/0 by the truncated integer '
+        'part, complementary; on text, blank, dates, lists, foreign objects both #VALUE!; on a logical (TRUE, FALSE) the two must '
+        'answer alike - both a value, and then complementary, or both an error; an error value given to them is not judged.  (e) model comparison only (oracle silent, never non-trivial): pred1 = '
         'each predicate as one direct call on the 45 pool values and 30% of the seeded numbers; arity = 269 direct calls: '
         'zero, missing and surplus arguments of the logical functions, TRUE, FALSE, NA, the ten predicates, N, T, ERROR.TYPE, '
         'IFERROR, IFNA, and N, T, ERROR.TYPE (not on the dict), IFERROR(v,777), IFNA(v,777) on the 45 pool values.  every '
@@ -67,7 +71,7 @@ RULE = ('modes: fn = one direct call of the registered Python function (nested l
         'c04.batch; of a pred case only the ten formulas); the oracle judges tf, not, if, ifs, switch, err, pred.  '
         'non-trivial (distinct cases) = the oracle decided an outcome for some function of the case: always for those kinds '
         'except switch lists without a complete pair or whose scan meets a logical/number or blank/non-blank comparison '
-        'before a match.  about 12800 cases quick, 169500 thorough at scale 1; scale 5 in quick when a fingerprinted function '
+        'before a match.  about 12900 cases quick, 169500 thorough at scale 1; scale 5 in quick when a fingerprinted function '
         'changed or the Lean build broke; search() (proof or correspondence broken, no oracle failure): the whole family '
         'redrawn at scale 6, oracle only, stops at the first failure.  no time or step budget, nothing skipped.')
 TRUSTED = ['complex numbers, NaN and infinities are not modelled and not generated (ISNUMBER(1+2j) is TRUE, ISEVEN(inf) is '
